@@ -58,8 +58,14 @@ void harness(void) {
   vs.env_fd = a;
   vs.env_len = ND_RANGE(1, VS_CAP);
   for (int k = 0; k < VS_CAP; k++) vs.env_data[k] = ND_UCHAR();
+  /* the wrapped descriptor may already have SO_KEEPALIVE on */
+  _Bool ka0 = ND_BOOL(), ka1 = ND_BOOL();
+  VFD(keepalive, a) = ka0;
   PSocket *S = p_socket_new_from_fd(a, NULL);
   VASSERT(S != NULL, "socket from descriptor");
+  VASSERT((p_socket_get_keepalive(S) != 0) == ka0, "get_keepalive of a wrapped descriptor = the descriptor's SO_KEEPALIVE option");
+  p_socket_set_keepalive(S, nd_pbool(ka1));
+  VASSERT(VFD(keepalive, a) == ka1 && (p_socket_get_keepalive(S) != 0) == ka1, "set_keepalive(v): descriptor option and getter = truth(v)");
   _Bool blocking = ND_BOOL();
   int targ = ND_INT();
   p_socket_set_blocking(S, nd_pbool(blocking));
